@@ -14,7 +14,10 @@ class StopRun(BaseException):
 
 
 def parse_disc(w):
-    return {"f": "f" in w, "c": "c" in w, "d": "d" in w, "w": "w" in w}
+    # letters: disconnect() in on_connect_fail / on_connect / on_disconnect / during the back-off wait;
+    # a trailing s<code>: the server ends an accepted MQTT 5 connection with DISCONNECT(code) instead of closing the stream
+    srv = int(w.split("s")[1]) if "s" in w else None
+    return {"f": "f" in w, "c": "c" in w, "d": "d" in w, "w": "w" in w, "s": srv}
 
 
 def parse_script(s):
@@ -89,7 +92,13 @@ def run_real(line):
             sched.append((now + it[2], "data", wire.enc_connack(p, rc=it[1])))
         elif it[0] == "acc":
             sched.append((now + it[1], "data", wire.enc_connack(p, rc=0)))
-            sched.append((now + it[1] + it[2], "eof", None))
+            if it[3]["s"] is not None and p == 5 and it[2] == 0:
+                # right behind the CONNACK: both packets arrive together
+                sched[-1] = (now + it[1], "data", wire.enc_connack(p, rc=0) + wire.enc_disconnect(rc=it[3]["s"]))
+            elif it[3]["s"] is not None and p == 5:
+                sched.append((now + it[1] + it[2], "data", wire.enc_disconnect(rc=it[3]["s"])))
+            else:
+                sched.append((now + it[1] + it[2], "eof", None))
         elif it[0] == "down":
             sched.append((now + it[1], "data", wire.enc_connack(p, rc=1)))
         return s
@@ -190,7 +199,17 @@ class LFStream:
                     rc = rng.choice([2, 3, 4, 5] if proto != 5 else [128, 134, 135])
                     items.append(f"nack:{rc}:{rng.choice([0, 1000, 2000])}:{rand_disc(rng, 0.08)}")
                 elif r < 0.92:
-                    items.append(f"acc:{rng.choice([0, 1000, 2000])}:{rng.choice([0, 1000, 5000, 30000])}:{rand_disc(rng, 0.12)}")
+                    d = rand_disc(rng, 0.12)
+                    life = rng.choice([0, 1000, 5000, 30000])
+                    if proto == 5 and rng.random() < 0.4 or rng.random() < 0.05:
+                        # the server ends the connection with a DISCONNECT packet; often right behind the CONNACK, with
+                        # the application disconnecting inside on_connect (the client's own DISCONNECT is still queued)
+                        if rng.random() < 0.5:
+                            life = 0
+                            if rng.random() < 0.6 and "c" not in d:
+                                d = ("c" + d).replace("-", "")
+                        d = d.replace("-", "") + "s" + str(rng.choice([0, 4, 128, 139, 141, 142, 152]))
+                    items.append(f"acc:{rng.choice([0, 1000, 2000])}:{life}:{d}")
                 else:
                     items.append(f"down:{rng.choice([0, 1000])}")
             case.append(f"lf proto={proto} min={mn} max={mx} rof={int(rng.random() < 0.85)} retry={int(rng.random() < 0.85)} script={','.join(items)}")
